@@ -28,7 +28,7 @@ __all__ = ["Int", "Real", "Bool", "Str", "Any", "Opt", "Tuple", "Val", "Ref", "O
            "sym_or", "fresh", "assume", "oblige", "unchanged", "z3", "seq_term", "to_z3_bool",
            "mk_bool", "mk_num", "new_object", "num", "T", "stub_of", "REG", "valueclass", "Yields", "Fn", "ObjProxy", "SymList", "SymDict", "SymSet",
            "s_union", "s_inter", "s_diff", "s_eq", "s_subset", "s_disjoint", "s_is_empty", "s_has", "s_add",
-           "native", "RealInf", "Bag", "SymHeap", "field_term", "OutOfReach", "Raw", "Not", "last_popped", "popped_any", "SpecError", "IntInf", "cast", "has_class"]
+           "native", "run_native_script", "RealInf", "Bag", "SymHeap", "field_term", "OutOfReach", "Raw", "Not", "last_popped", "popped_any", "SpecError", "IntInf", "cast", "has_class"]
 
 
 def cast(obj, klass):
@@ -71,6 +71,25 @@ def field_term(obj, name, state=None):
 def native():
     """True while a clause is evaluated by the replay harness on real objects."""
     return not _ctx.active()
+
+
+def run_native_script(relpath, *args, timeout=3000):
+    """Bounded stand-ins that drive the library through its public API run in a CLEAN interpreter (no import hook,
+    no shims) against the tree under check: `<python> /verif/<relpath> args... --json` with PYTHONPATH=<tree>;
+    the script prints one JSON object {"evaluations": n, "violations": [...]} as its last stdout line."""
+    import json as _json
+    import os as _os
+    import subprocess as _sp
+    import sys as _sys
+    verif = _os.path.dirname(_os.path.dirname(_os.path.abspath(__file__)))
+    env = dict(_os.environ, PYTHONPATH=_ctx.REPO, PYTHONHASHSEED=_os.environ.get("PYTHONHASHSEED", "0"))
+    p = _sp.run([_sys.executable, _os.path.join(verif, relpath), *[str(a) for a in args], "--json"], cwd=_ctx.REPO, env=env,
+                capture_output=True, text=True, timeout=timeout)
+    lines = [ln for ln in p.stdout.splitlines() if ln.strip()]
+    try:
+        return _json.loads(lines[-1])
+    except Exception:      # noqa: BLE001
+        raise RuntimeError(f"{relpath} gave no JSON result (exit {p.returncode}): {p.stdout[-300:]} {p.stderr[-600:]}") from None
 
 TASKS = []          # everything to verify, in declaration order
 CONTRACTS = {}      # (pyclass or module name, fname) -> Contract
